@@ -8,8 +8,8 @@
         helper) and looked up by equality / membership / subscript.
 
 For the walk family the set of strings that can be looked up must contain all ancestors-or-self.  This is decided by unrolling
-the inline view of the lookup abstractly on the names `aa`, `aa.bb`, `aa.bb.cc`: strings derived from the parameter are
-computed concretely, everything read from the mapping object is UNKNOWN (a condition on it forks the unrolling), loops are
+the inline view of the lookup abstractly on the names `aa`, `aa.bb`, `aa.bb.cc`, `aa.bb.cc.dd`: strings derived from the parameter are
+computed concretely, everything read from the mapping _isu(object)NOWN (a condition on it forks the unrolling), loops are
 bounded.  The union over all paths of the strings compared with / looked up in UNKNOWN data is the set of names the lookup can
 ever test; an ancestor missing from it is never tested, so descendants of a module listed under that name get no layer.
 
@@ -22,7 +22,7 @@ from __future__ import annotations
 import ast
 import itertools
 
-from core.loader import FuncInfo, Repo
+from core.loader import FuncInfo, Repo, norm
 
 from .common import types_of
 
@@ -33,6 +33,85 @@ class _Unknown:
 
 
 UNK = _Unknown()
+
+
+class _Opaque(_Unknown):
+    """A value *derived from the module name* that the unrolling could not compute (a library function it does not model, a
+    slice with a data-dependent bound ...).  It behaves like UNK everywhere, but when it is looked up / compared with the
+    mapping data the set of tested names is no longer known: a missing ancestor is then *undecided*, never a VIOLATION."""
+
+    def __repr__(self) -> str:
+        return "OPQ"
+
+
+OPQ = _Opaque()
+
+
+class _Node(_Unknown):
+    """The result of looking a string up in the mapping data: mapping data again, which remembers the keys that led to it.
+    Looking a further *component* up in it (`node = node.children.get(part)`, a trie keyed by name components) tests the dotted
+    name made of the whole key path."""
+
+    def __init__(self, path: tuple) -> None:
+        self.path = path
+
+    def __repr__(self) -> str:
+        return f"NODE{self.path}"
+
+
+class _MapMethod(_Unknown):
+    """A bound method of mapping data used as a function: `map(self._index.get, ancestors)`, `filter(names.__contains__, ...)`."""
+
+    def __init__(self, recv, attr: str) -> None:
+        self.recv, self.attr = recv, attr
+
+
+def _isu(v) -> bool:
+    return isinstance(v, _Unknown)
+
+
+def _ismap(v) -> bool:
+    """Mapping data (read from the object / unknown inputs), as opposed to an opaque value derived from the name."""
+    return isinstance(v, _Unknown) and not isinstance(v, _Opaque)
+
+
+def _isopq(v) -> bool:
+    return isinstance(v, _Opaque)
+
+
+def _has_opq(v, depth: int = 0) -> bool:
+    if _isopq(v):
+        return True
+    if isinstance(v, _Bound):
+        return _has_opq(v.recv, depth + 1)
+    return depth < 3 and isinstance(v, (list, tuple)) and any(_has_opq(x, depth + 1) for x in v)
+
+
+def _concrete(v, depth: int = 0) -> bool:
+    """A value computed from the module name (a string, a number, a container of those)."""
+    if isinstance(v, bool) or v is None:
+        return False
+    if isinstance(v, str):
+        return v != "SELF"
+    if isinstance(v, int):
+        return True
+    if isinstance(v, _Bound):
+        return True
+    return depth < 3 and isinstance(v, (list, tuple)) and v != ("UNKSTR",) and any(_concrete(x, depth + 1) for x in v)
+
+
+def _t(*inputs):
+    """UNK, or OPQ when an input already is opaque (taint propagation)."""
+    return OPQ if any(_has_opq(v) for v in inputs) else UNK
+
+
+def _d(*inputs):
+    """Result of an operation the unrolling does not model: opaque when it was applied to values derived from the name only."""
+    if any(_has_opq(v) for v in inputs):
+        return OPQ
+    if any(_ismap(v) or v == ("UNKSTR",) or (isinstance(v, (list, tuple)) and any(_ismap(x) for x in v)) for v in inputs):
+        return UNK
+    return OPQ if any(_concrete(v) for v in inputs) else UNK
 
 
 class Unsupported(Exception):
@@ -56,27 +135,80 @@ class _Abort(Exception):
     """raise statement / budget exhausted: the path ends."""
 
 
+class _Bound:
+    """A bound method of a concrete string used as a function: `"{}.{}".format`, `".".join`."""
+
+    def __init__(self, recv: str, attr: str) -> None:
+        self.recv, self.attr = recv, attr
+
+
+class _Lib:
+    """A library function referenced by name (`operator.add`, `str.join` ...)."""
+
+    def __init__(self, name: str) -> None:
+        self.name = name
+
+
+class _Ext:
+    """Something imported that is neither data of the mapping nor a function the unrolling models: a library module (`re`),
+    a class.  Calling it / its attributes with name-derived arguments yields an opaque value."""
+
+    def __init__(self, fq: str) -> None:
+        self.fq = fq
+
+
+class _Partial:
+    def __init__(self, fn, args, kwargs) -> None:
+        self.fn, self.args, self.kwargs = fn, list(args), dict(kwargs)
+
+
+_MAP_METHODS = {"get", "__getitem__", "__contains__", "pop", "setdefault", "index", "count", "intersection", "difference", "isdisjoint", "issuperset"}
+_BUILTIN_FUNCS = {"len", "list", "tuple", "set", "frozenset", "sorted", "iter", "reversed", "enumerate", "range", "zip", "str", "repr", "bool", "int", "min", "max", "sum", "abs", "any", "all", "next", "map", "filter", "isinstance", "dict"}
+_LIBRARY = {
+    **{f"itertools.{n}": n for n in ("accumulate", "chain", "islice", "takewhile", "dropwhile", "pairwise", "starmap", "repeat", "count", "zip_longest", "product")},
+    "itertools.chain.from_iterable": "chain.from_iterable",
+    "functools.reduce": "reduce", "functools.partial": "partial",
+    **{f"operator.{n}": f"operator.{n}" for n in ("add", "concat", "getitem", "itemgetter", "attrgetter", "contains", "eq", "ne", "not_", "truth", "is_", "is_not", "mod")},
+    **{f"bisect.{n}": n for n in ("bisect", "bisect_left", "bisect_right", "insort", "insort_left", "insort_right")},
+    **{f"builtins.{n}": n for n in _BUILTIN_FUNCS},
+    **{f"str.{n}": f"str.{n}" for n in ("join", "format", "split", "rsplit", "partition", "rpartition", "startswith", "endswith", "lower", "upper", "strip", "removeprefix", "removesuffix", "__add__", "__mod__")},
+}
+
+
+import re as _re  # noqa: E402  (constant folding of pure functions of the standard library on strings derived from the name)
+
+_FOLDABLE = {"re.split": _re.split, "re.findall": _re.findall, "re.sub": _re.sub, "re.escape": _re.escape, "chr": chr, "ord": ord, "divmod": divmod}
+_LIBRARY.update({"re.split": "re.split", "re.findall": "re.findall", "re.sub": "re.sub", "re.escape": "re.escape"})
+
+
 class _Closure:
     def __init__(self, node: ast.Lambda, env: dict) -> None:
         self.node, self.env = node, env
 
 
 def _unk(*vs) -> bool:
-    return any(v is UNK or (isinstance(v, (list, tuple)) and any(x is UNK for x in v)) for v in vs)
+    return any(_isu(v) or (isinstance(v, (list, tuple)) and any(_isu(x) for x in v)) for v in vs)
 
 
 class Walk:
-    def __init__(self, repo: Repo, view: FuncInfo, name: str) -> None:
+    def __init__(self, repo: Repo, view: FuncInfo, name: str, fields: dict | None = None) -> None:
         self.repo, self.T, self.view, self.name = repo, types_of(repo), view, name
+        self.fields = fields or {}  # text of an attribute expression (`self._sorted_names`) -> concrete value of a witness run
+        self.matched: set[str] = set()  # listed names (of a witness run) that were positively recognised as ancestor-or-self
         self.looked: set[str] = set()
         self.scan = False
         self.runs = 0
         self.derived = False  # a string other than the name itself was looked up / compared with unknown data
+        self.opaque: list[str] = []  # name-derived values the unrolling could not compute were looked up (no verdict from a miss)
+        self.truncated = False  # the unrolling was cut short (step / path budget)
 
     # ------------------------------------------------------------------ path enumeration
     def explore(self, max_runs: int = 300) -> None:
         work: list[list[bool]] = [[]]
-        while work and self.runs < max_runs:
+        while work:
+            if self.runs >= max_runs:
+                self.truncated = True
+                break
             prefix = work.pop()
             self.runs += 1
             self.decisions, self.pos, self.steps = list(prefix), 0, 0
@@ -109,17 +241,41 @@ class Walk:
     def tick(self) -> None:
         self.steps += 1
         if self.steps > 4000:
+            self.truncated = True
             raise _Abort()
 
     # ------------------------------------------------------------------ recording
-    def look(self, s) -> None:
+    def look(self, s, node=None, base=None):
+        """`s` is looked up in / compared with mapping data `base`; returns what the lookup yields (mapping data again)."""
+        if _has_opq(s):
+            self.opaque.append(_src_of(node) if node is not None else "a derived name")
+            return UNK
+        if isinstance(s, (list, tuple)) and s != ("UNKSTR",):
+            for x in s:
+                self.look(x, node, base)
+            return UNK
         if isinstance(s, str) and s != "SELF":
+            path = base.path if isinstance(base, _Node) else ()
+            if path and "." not in s and all("." not in k for k in path):
+                # a descent by components (trie): the key path is the dotted name that is tested
+                full = ".".join([*path, s])
+                self.looked.add(full)
+                self.derived = True
+                return _Node((*path, s))
             self.looked.add(s)
             if s != self.name:
                 self.derived = True
+            return _Node((s,))
+        return UNK
+
+    def mixed(self, node, *inputs):
+        """Values derived from the name are handed, together with mapping data, to an operation the unrolling does not model:
+        which names are tested there is not known."""
+        if any(_ismap(v) or v == ("UNKSTR",) or (isinstance(v, (list, tuple)) and any(_ismap(x) for x in v)) for v in inputs) and any(isinstance(v, str) and v not in ("SELF",) or (isinstance(v, (list, tuple)) and v != ("UNKSTR",) and any(isinstance(x, str) for x in v)) for v in inputs):
+            self.opaque.append(_src_of(node) if node is not None else "a derived name")
 
     def truth(self, v) -> bool:
-        if v is UNK or isinstance(v, _Closure):
+        if _isu(v) or isinstance(v, _Closure):
             return self.decide()
         if isinstance(v, (list, tuple)) and _unk(v) and not v:
             return False
@@ -136,7 +292,7 @@ class Walk:
         elif isinstance(target, (ast.Tuple, ast.List)):
             elts = target.elts
             star = next((i for i, e in enumerate(elts) if isinstance(e, ast.Starred)), None)
-            if value is UNK or not isinstance(value, (list, tuple)):
+            if _isu(value) or not isinstance(value, (list, tuple)):
                 for e in elts:
                     self.assign(e.value if isinstance(e, ast.Starred) else e, UNK, env)
                 return
@@ -158,8 +314,8 @@ class Walk:
         elif isinstance(target, ast.Subscript):
             base = self.expr(target.value, env, None, 0)
             key = self.expr(target.slice, env, None, 0) if not isinstance(target.slice, ast.Slice) else UNK
-            if base is UNK:
-                self.look(key)
+            if _ismap(base):
+                self.look(key, target, base)
         elif isinstance(target, ast.Attribute):
             pass
 
@@ -192,9 +348,10 @@ class Walk:
             while True:
                 n += 1
                 if n > 12:
+                    self.truncated = True
                     break
                 c = self.expr(s.test, env, ctx, depth)
-                if c is UNK and n > 4:
+                if _isu(c) and n > 4:
                     break
                 if not self.truth(c):
                     self.block(s.orelse, env, ctx, depth)
@@ -240,20 +397,24 @@ class Walk:
             raise Unsupported(type(s).__name__)
 
     def iterate(self, v) -> list:
-        if v is UNK:
-            return [UNK]  # one representative element of unknown data
+        if _isu(v):
+            return [v]  # one representative element of unknown data (opaque stays opaque)
         if isinstance(v, str):
             return list(v)
         if isinstance(v, (list, tuple)):
             return list(v)
         if isinstance(v, range):
             return list(v)[:12]
-        return [UNK]
+        return [_d(v)]
 
     # ------------------------------------------------------------------ expressions
-    def binop(self, op, a, b):
-        if _unk(a, b) and not (isinstance(a, list) and isinstance(b, list)):
+    def binop(self, op, a, b, node=None):
+        if isinstance(op, (ast.BitAnd, ast.Sub, ast.BitXor)) and ((_ismap(a) and isinstance(b, (list, tuple))) or (_ismap(b) and isinstance(a, (list, tuple)))):
+            # derived_names & listed_names / derived_names - listed_names: a membership test of every derived name
+            self.look(b if _ismap(a) else a, node, a if _ismap(a) else b)
             return UNK
+        if _unk(a, b) and not (isinstance(a, list) and isinstance(b, list)):
+            return _t(a, b)
         try:
             if isinstance(op, ast.Add):
                 return a + b
@@ -262,46 +423,58 @@ class Walk:
             if isinstance(op, ast.Mult):
                 return a * b
             if isinstance(op, ast.Mod):
-                return a % b if not isinstance(a, str) else UNK
+                return a % (tuple(b) if isinstance(b, list) else b)
             if isinstance(op, ast.FloorDiv):
                 return a // b
             if isinstance(op, ast.BitOr) and isinstance(a, list) and isinstance(b, list):
                 return a + b
         except Exception:  # noqa: BLE001
-            return UNK
-        return UNK
+            return _d(a, b)
+        return _d(a, b)
 
-    def compare(self, op, a, b):
+    def compare(self, op, a, b, node=None):
         if isinstance(op, (ast.In, ast.NotIn)):
-            if b is UNK:
-                self.look(a)
+            if _ismap(b):
+                self.look(a, node, b)
                 return UNK
             if isinstance(b, (list, tuple)) and _unk(b):
-                self.look(a)
-                if any(x is not UNK and x == a for x in b):
+                if any(_ismap(x) for x in b):
+                    self.look(a, node)
+                if not _isu(a) and any(not _isu(x) and x == a for x in b):
                     return isinstance(op, ast.In)
-                return UNK
-            if a is UNK:
-                if isinstance(b, (list, tuple)):
+                return _t(a, b)
+            if _isu(b):
+                return OPQ
+            if _isu(a):
+                if _ismap(a) and isinstance(b, (list, tuple)):
                     for x in b:
-                        self.look(x)
-                return UNK
+                        self.look(x, node)
+                return _t(a)
             try:
                 r = a in b
             except TypeError:
-                return UNK
+                return _d(a, b)
+            if r and self.fields and isinstance(a, str) and isinstance(b, (list, tuple)) and (self.name == a or self.name.startswith(a + ".")):
+                self.matched.add(a)  # a derived name found among the (concrete) listed names of a witness run
             return r if isinstance(op, ast.In) else not r
         if isinstance(op, (ast.Is, ast.IsNot)):
-            if a is UNK or b is UNK:
-                return UNK
+            if _isu(a) or _isu(b):
+                return _t(a, b)
             r = a is b or (a is None and b is None) or (isinstance(a, (str, int, bool)) and a == b)
             return r if isinstance(op, ast.Is) else not r
-        if a is UNK or b is UNK:
-            if isinstance(op, (ast.Eq, ast.NotEq)):
-                self.look(a if b is UNK else b)
+        if isinstance(op, (ast.LtE, ast.Lt, ast.GtE, ast.Gt)) and ((_ismap(a) and isinstance(b, (list, tuple))) or (_ismap(b) and isinstance(a, (list, tuple)))):
+            self.look(b if _ismap(a) else a, node, a if _ismap(a) else b)  # subset test against the listed names
             return UNK
+        if _isu(a) or _isu(b):
+            if isinstance(op, (ast.Eq, ast.NotEq)) and (_ismap(a) or _ismap(b)):
+                self.look(a if _ismap(b) else b, node)
+                if _ismap(a) and _ismap(b):
+                    return UNK
+            return _t(a, b)
         try:
             if isinstance(op, ast.Eq):
+                if self.fields and isinstance(a, str) and a == b and (self.name == a or self.name.startswith(a + ".")):
+                    self.matched.add(a)
                 return a == b
             if isinstance(op, ast.NotEq):
                 return a != b
@@ -314,8 +487,8 @@ class Walk:
             if isinstance(op, ast.GtE):
                 return a >= b
         except TypeError:
-            return UNK
-        return UNK
+            return _d(a, b)
+        return _d(a, b)
 
     def comprehension(self, e, env, ctx, depth) -> list:
         out: list = []
@@ -349,7 +522,7 @@ class Walk:
                 return env[e.id]
             if e.id in ("True", "False", "None"):
                 return {"True": True, "False": False, "None": None}[e.id]
-            return UNK
+            return self.global_name(e, ctx)
         if isinstance(e, ast.JoinedStr):
             parts = []
             for v in e.values:
@@ -363,8 +536,27 @@ class Walk:
                     parts.append(str(x))
             return "".join(parts)
         if isinstance(e, ast.Attribute):
-            self.expr(e.value, env, ctx, depth)
-            return UNK
+            if self.fields:
+                try:
+                    text = ast.unparse(e)
+                except Exception:  # noqa: BLE001
+                    text = ""
+                if text in self.fields:
+                    val = self.fields[text]
+                    return list(val) if isinstance(val, list) else val
+            v = self.expr(e.value, env, ctx, depth)
+            if isinstance(v, str) and v != "SELF":
+                return _Bound(v, e.attr)  # "{}.{}".format, ".".join used as a function
+            if isinstance(v, _Ext):
+                return self.global_name(e, ctx)
+            if _ismap(v):
+                g = self.global_name(e, ctx) if v is UNK else UNK
+                if isinstance(g, _Lib):
+                    return g
+                if e.attr in _MAP_METHODS:
+                    return _MapMethod(v, e.attr)
+                return v  # a part of the mapping data (node.children, node.layer): keeps the key path
+            return _t(v)
         if isinstance(e, (ast.List, ast.Tuple, ast.Set)):
             out: list = []
             for x in e.elts:
@@ -392,30 +584,30 @@ class Walk:
                 v = self.expr(x, env, ctx, depth)
                 t = self.truth(v)
                 if isinstance(e.op, ast.And) and not t:
-                    return v if v is not UNK else False
+                    return v if not _isu(v) else False
                 if isinstance(e.op, ast.Or) and t:
-                    return v if v is not UNK else True
+                    return v if not _isu(v) else True
             return v
         if isinstance(e, ast.UnaryOp):
             v = self.expr(e.operand, env, ctx, depth)
             if isinstance(e.op, ast.Not):
-                return UNK if v is UNK else not self.truth(v)
+                return v if _isu(v) else not self.truth(v)
             if isinstance(e.op, ast.USub) and isinstance(v, int):
                 return -v
-            return UNK
+            return _d(v)
         if isinstance(e, ast.BinOp):
             a, b = self.expr(e.left, env, ctx, depth), self.expr(e.right, env, ctx, depth)
-            if isinstance(e.op, ast.Add) and (a == ("UNKSTR",) or b == ("UNKSTR",) or (isinstance(a, str) and b is UNK) or (a is UNK and isinstance(b, str))):
+            if isinstance(e.op, ast.Add) and (a == ("UNKSTR",) or b == ("UNKSTR",) or (isinstance(a, str) and _isu(b)) or (_isu(a) and isinstance(b, str))):
                 return ("UNKSTR",)
-            return self.binop(e.op, a, b)
+            return self.binop(e.op, a, b, e)
         if isinstance(e, ast.Compare):
             left = self.expr(e.left, env, ctx, depth)
             res = True
             for op, r in zip(e.ops, e.comparators):
                 right = self.expr(r, env, ctx, depth)
-                c = self.compare(op, _plain(left), _plain(right))
-                if c is UNK:
-                    res = UNK
+                c = self.compare(op, _plain(left), _plain(right), e)
+                if _isu(c):
+                    res = c if res is True or _isopq(c) else res
                 elif not c:
                     return False
                 left = right
@@ -430,18 +622,22 @@ class Walk:
                 lo = self.expr(e.slice.lower, env, ctx, depth) if e.slice.lower is not None else None
                 hi = self.expr(e.slice.upper, env, ctx, depth) if e.slice.upper is not None else None
                 st = self.expr(e.slice.step, env, ctx, depth) if e.slice.step is not None else None
-                if base is UNK or _unk(lo, hi, st) or not isinstance(base, (str, list, tuple)):
-                    return UNK
+                if _isu(base):
+                    return _t(base, lo, hi, st)
+                if _unk(lo, hi, st) or not isinstance(base, (str, list, tuple)):
+                    # a piece of a name-derived value cut at a position the unrolling does not know
+                    return OPQ if _concrete(base) else _t(base, lo, hi, st)
                 try:
                     return base[lo:hi:st]
                 except Exception:  # noqa: BLE001
-                    return UNK
+                    return _d(base, lo, hi, st)
             idx = self.expr(e.slice, env, ctx, depth)
-            if base is UNK:
-                self.look(idx)
-                return UNK
-            if idx is UNK or not isinstance(base, (str, list, tuple)):
-                return UNK
+            if _ismap(base):
+                return self.look(idx, e, base) if isinstance(idx, str) else (base if isinstance(base, _Node) else UNK)
+            if _isopq(base):
+                return OPQ
+            if _isu(idx) or not isinstance(base, (str, list, tuple)):
+                return OPQ if _concrete(base) else _t(base, idx)
             try:
                 return base[idx]
             except Exception:  # noqa: BLE001
@@ -456,17 +652,79 @@ class Walk:
             raise Unsupported(type(e).__name__)
         return UNK
 
+    def global_name(self, e: ast.expr, ctx):
+        """A name that is not a local: a module-level string constant, a function of the repo, a library function."""
+        src = getattr(e, "_src", None)
+        mod = getattr(src[0] if src is not None else ctx, "module", None)
+        if mod is None:
+            return UNK
+        if isinstance(e, ast.Name):
+            c = mod.constants.get(e.id)
+            if isinstance(c, ast.Constant) and isinstance(c.value, (str, int)):
+                return c.value
+            if e.id in mod.functions:
+                return mod.functions[e.id]
+            if e.id in _BUILTIN_FUNCS and e.id not in mod.imports and e.id not in mod.classes:
+                return _Lib(e.id)
+        if isinstance(e, ast.Attribute) and isinstance(e.value, ast.Name) and e.value.id == "str" and "str" not in mod.imports:
+            return _Lib(f"str.{e.attr}")
+        try:
+            fq = self.repo.resolve_name(mod, e)
+        except Exception:  # noqa: BLE001
+            fq = None
+        if fq is None:
+            return UNK
+        if fq in _LIBRARY:
+            return _Lib(_LIBRARY[fq])
+        modname, _, attr = fq.rpartition(".")
+        m = self.repo.modules.get(modname)
+        if m is not None:
+            if attr in m.functions:
+                return m.functions[attr]
+            c = m.constants.get(attr)
+            if isinstance(c, ast.Constant) and isinstance(c.value, (str, int)):
+                return c.value
+            if attr in m.constants:
+                return UNK  # module-level data
+        return _Ext(fq)
+
     # ------------------------------------------------------------------ calls
-    def apply(self, fn, args, ctx, depth):
+    def apply(self, fn, args, ctx, depth, kwargs=None):
         if isinstance(fn, _Closure):
             a = fn.node.args
             env = dict(fn.env)
-            for p, v in zip([*a.posonlyargs, *a.args], args):
+            pos = [*a.posonlyargs, *a.args]
+            for p, d in zip(reversed(pos), reversed(a.defaults)):
+                env[p.arg] = self.expr(d, fn.env, ctx, depth)
+            for p, v in zip(pos, args):
                 env[p.arg] = v
             return self.expr(fn.node.body, env, ctx, depth)
         if isinstance(fn, FuncInfo):
-            return self.invoke(fn, None, args, {}, depth)
-        return UNK
+            return self.invoke(fn, None, args, kwargs or {}, depth)
+        if isinstance(fn, _Bound):
+            if kwargs and fn.attr == "format":
+                if _unk(*args, *kwargs.values()) or not all(isinstance(v, (str, int)) for v in [*args, *kwargs.values()]):
+                    return _d(fn.recv, *args, *kwargs.values())
+                try:
+                    return fn.recv.format(*args, **kwargs)
+                except Exception:  # noqa: BLE001
+                    return _d(fn.recv, *args, *kwargs.values())
+            return self.str_method(fn.recv, fn.attr, list(args))
+        if isinstance(fn, _Lib):
+            if fn.name.startswith("str."):
+                a0 = args[0] if args else None
+                if isinstance(a0, str) and a0 != "SELF":
+                    return self.str_method(a0, fn.name[4:], list(args[1:]))
+                return _d(*args)
+            return self.builtin(fn.name, list(args), kwargs or {}, ctx, depth)
+        if isinstance(fn, _Partial):
+            return self.apply(fn.fn, [*fn.args, *args], ctx, depth, {**fn.kwargs, **(kwargs or {})})
+        if isinstance(fn, _MapMethod):
+            return self.map_method(fn.recv, fn.attr, list(args), kwargs or {}, None)
+        if _ismap(fn):
+            self.mixed(None, fn, *args)
+            return UNK
+        return _d(*args)
 
     def invoke(self, callee: FuncInfo, recv, args, kwargs, depth):
         if depth > 4 or isinstance(callee.node, ast.Lambda):
@@ -541,38 +799,100 @@ class Walk:
             else:
                 args.append(self.expr(a, env, ctx, depth))
         kwargs = {k.arg: self.expr(k.value, env, ctx, depth) for k in e.keywords if k.arg}
+        allargs = [*args, *kwargs.values()]
         # ---- methods
         if isinstance(f, ast.Attribute):
             recv = self.expr(f.value, env, ctx, depth)
             m = f.attr
             if isinstance(recv, str) and recv != "SELF":
-                return self.str_method(recv, m, args)
+                return self.str_method(recv, m, args, kwargs)
             if recv == ("UNKSTR",):
                 return UNK
             if isinstance(recv, (list, tuple)):
                 return self.list_method(f.value, recv, m, args, env)
-            if recv == "SELF" or recv is UNK:
+            if _isopq(recv):
+                return OPQ
+            if isinstance(recv, _Lib):
+                return self.builtin(f"{recv.name}.{m}", args, kwargs, ctx, depth)
+            if isinstance(recv, _Ext):
+                callee = self.resolve(e, ctx)
+                if callee is not None:
+                    return self.invoke(callee, None, args, kwargs, depth)
+                g = self.global_name(f, ctx)
+                if isinstance(g, (_Lib, FuncInfo)):
+                    return self.apply(g, args, ctx, depth, kwargs)
+                self.mixed(e, *allargs)
+                return _d(*allargs)
+            if recv == "SELF" or _ismap(recv):
                 callee = self.resolve(e, ctx)
                 if callee is not None:
                     return self.invoke(callee, recv, args, kwargs, depth)
-                if recv is UNK:
+                if _ismap(recv):
+                    lib = self.global_name(f, ctx)
+                    if isinstance(lib, (_Lib, FuncInfo)):  # itertools.accumulate(...), operator.add(...), othermodule.helper(...)
+                        return self.apply(lib, args, ctx, depth, kwargs)
                     if m in ("startswith", "endswith") and args and isinstance(args[0], str):
                         self.scan = True  # listed_name.startswith(...) - a comparison of every listed name with the name
                         return UNK
-                    for a in args:
-                        self.look(_plain(a))
+                    return self.map_method(recv, m, args, kwargs, e)
+                # a callable stored on the object that the resolver does not see through: the name escapes the unrolling
+                if any(_concrete(a) or _has_opq(a) for a in allargs):
+                    self.opaque.append(_src_of(e))
                 return UNK
-            return UNK
+            return _d(recv, *allargs)
         # ---- plain names
         if isinstance(f, ast.Name):
             n = f.id
-            if n in env and isinstance(env[n], (_Closure, FuncInfo)):
-                return self.apply(env[n], args, ctx, depth)
+            if n in env:
+                if isinstance(env[n], (_Closure, FuncInfo, _Bound, _Lib, _Partial, _MapMethod)):
+                    return self.apply(env[n], args, ctx, depth, kwargs)
+                self.mixed(e, env[n], *allargs)
+                return _d(env[n], *allargs)
             callee = self.resolve(e, ctx)
             if callee is not None:
                 return self.invoke(callee, None, args, kwargs, depth)
+            g = self.global_name(f, ctx)
+            if isinstance(g, (_Lib, FuncInfo)):
+                return self.apply(g, args, ctx, depth, kwargs)
             return self.builtin(n, args, kwargs, ctx, depth)
-        return UNK
+        # ---- a computed callable: (lambda ...)(x), partial(f, a)(b), "{}.{}".format(...) is handled above
+        fn = self.expr(f, env, ctx, depth)
+        if isinstance(fn, (_Closure, FuncInfo, _Bound, _Lib, _Partial, _MapMethod)):
+            return self.apply(fn, args, ctx, depth, kwargs)
+        self.mixed(e, fn, *allargs)
+        return _d(fn, *allargs)
+
+    def map_method(self, recv, m: str, args, kwargs, node):
+        """A method of mapping data called with (possibly) name-derived arguments: a lookup of those arguments."""
+        allargs = [*args, *kwargs.values()]
+        if m in ("get", "pop", "setdefault", "__getitem__", "__contains__", "index", "count", "find", "has", "lookup", "get_child", "child") and args:
+            r = self.look(_plain(args[0]), node, recv)
+            return r
+        if m in ("intersection", "difference", "issuperset", "isdisjoint", "__and__", "__rand__", "__ge__", "__gt__", "symmetric_difference"):
+            for a in allargs:
+                self.look(_plain(a), node, recv)
+            return UNK
+        if m in ("items", "values", "keys", "copy", "children", "elements"):
+            return recv
+        out = UNK
+        for a in allargs:
+            out = self.look(_plain(a), node, recv)
+        return out if len(allargs) == 1 else UNK
+
+    def pyfunc(self, fn, ctx, depth):
+        """A Python callable for a key function the unrolling can apply (str.lower, a lambda over strings)."""
+        if isinstance(fn, _Lib) and fn.name.startswith("str."):
+            return lambda x, _m=fn.name[4:]: getattr(x, _m)()
+        if isinstance(fn, _Lib) and fn.name == "len":
+            return len
+        if isinstance(fn, (_Closure, FuncInfo, _Bound, _Partial)):
+            def call(x, _fn=fn):
+                r = self.apply(_fn, [x], ctx, depth)
+                if _isu(r) or _has_opq(r):
+                    raise ValueError("opaque key")
+                return tuple(r) if isinstance(r, list) else r
+            return call
+        return None
 
     def resolve(self, call: ast.Call, ctx) -> FuncInfo | None:
         src = getattr(call, "_src", None)
@@ -588,38 +908,68 @@ class Walk:
             return cs[0]
         return None
 
-    def str_method(self, s: str, m: str, args):
+    def str_method(self, s: str, m: str, args, kwargs=None):
+        if kwargs:
+            vals = list(kwargs.values())
+            if _unk(*vals) or not all(isinstance(v, (str, int)) or v is None for v in vals):
+                return _d(s, *args, *vals)
+            if _unk(*args) or any(a == ("UNKSTR",) for a in args):
+                return _d(s, *args, *vals)
+            try:
+                r = getattr(s, m)(*args, **kwargs)
+            except ValueError:
+                raise _Abort() from None
+            except Exception:  # noqa: BLE001
+                return _d(s, *args, *vals)
+            return list(r) if isinstance(r, list) else tuple(r) if isinstance(r, tuple) else r if isinstance(r, (str, int, bool)) else _d(s, *args, *vals)
         a0 = args[0] if args else None
-        if m in ("startswith", "endswith", "removeprefix", "removesuffix") and (a0 is UNK or a0 == ("UNKSTR",)):
+        if m in ("startswith", "endswith", "removeprefix", "removesuffix") and (_ismap(a0) or a0 == ("UNKSTR",)):
             self.scan = True  # the name is tested against (something built from) every listed name
             return UNK
-        if _unk(*args) or any(a == ("UNKSTR",) for a in args):
+        if isinstance(a0, tuple) and m in ("startswith", "endswith") and any(_ismap(x) or x == ("UNKSTR",) for x in a0):
+            self.scan = True  # name.startswith(tuple of prefixes built from the listed names)
             return UNK
+        if _unk(*args) or any(a == ("UNKSTR",) for a in args):
+            return OPQ if any(_has_opq(a) for a in args) or m not in ("startswith", "endswith", "find", "rfind", "index", "rindex", "count", "isidentifier") else UNK
         try:
             if m in ("rpartition", "partition"):
                 return tuple(getattr(s, m)(*args))
             if m in ("split", "rsplit", "splitlines"):
                 return list(getattr(s, m)(*args))
             if m == "join":
-                return s.join(list(a0)) if isinstance(a0, (list, tuple)) and not _unk(a0) else UNK
-            if m in ("startswith", "endswith", "find", "rfind", "index", "rindex", "count", "removeprefix", "removesuffix", "strip", "rstrip", "lstrip", "replace", "lower", "upper", "isidentifier", "format"):
-                return getattr(s, m)(*args)
+                return s.join(list(a0)) if isinstance(a0, (list, tuple)) and all(isinstance(x, str) and x != "SELF" for x in a0) else _d(s, a0)
+            if m == "startswith" and self.fields and isinstance(a0, str) and s == self.name and s.startswith(a0) and a0.endswith("."):
+                self.matched.add(a0[:-1])
+            if m in ("startswith", "endswith", "find", "rfind", "index", "rindex", "count", "removeprefix", "removesuffix", "strip", "rstrip", "lstrip", "replace", "lower", "upper", "casefold", "isidentifier", "format", "__add__", "__mod__", "__contains__", "__eq__", "__getitem__", "__len__", "title", "capitalize", "encode", "isalnum", "isalpha", "isdigit", "zfill", "center", "ljust", "rjust", "expandtabs", "swapcase"):
+                r = getattr(s, m)(*[tuple(a) if isinstance(a, list) and m in ("startswith", "endswith", "__mod__") else a for a in args])
+                return r if isinstance(r, (str, int, bool)) else _d(s, *args)
         except ValueError:
             raise _Abort() from None
         except Exception:  # noqa: BLE001
-            return UNK
-        return UNK
+            return _d(s, *args)
+        return _d(s, *args)
 
     def list_method(self, node, lst, m: str, args, env):
         if m in ("append", "add", "insert", "appendleft") and args and isinstance(lst, list):
-            lst.append(args[-1])
+            if m == "insert" and len(args) == 2 and isinstance(args[0], int) and not isinstance(args[0], bool):
+                lst.insert(args[0], args[1])
+            elif m == "appendleft":
+                lst.insert(0, args[-1])
+            else:
+                lst.append(args[-1])
             return None
         if m in ("extend", "update") and args and isinstance(lst, list):
             lst.extend(self.iterate(args[0]))
             return None
-        if m == "pop" and isinstance(lst, list):
+        if m == "extendleft" and args and isinstance(lst, list):
+            for v in self.iterate(args[0]):
+                lst.insert(0, v)
+            return None
+        if m in ("pop", "popleft") and isinstance(lst, list):
             if not lst:
                 raise _Abort()
+            if m == "popleft":
+                return lst.pop(0)
             return lst.pop(args[0] if args and isinstance(args[0], int) else -1)
         if m in ("index", "count") and args and not _unk(lst, args[0]):
             try:
@@ -634,58 +984,79 @@ class Walk:
                     getattr(lst, m)(*args)
                 except Exception:  # noqa: BLE001
                     pass
+            elif m == "reverse" and isinstance(lst, list):
+                lst.reverse()
             return None
-        return UNK
+        return _d(lst, *args)
 
     def builtin(self, n: str, args, kwargs, ctx, depth):
         a0 = args[0] if args else None
+        allargs = [*args, *kwargs.values()]
         if n == "len":
-            return len(a0) if isinstance(a0, (str, list, tuple)) else UNK
-        if n in ("list", "tuple", "set", "frozenset", "sorted", "iter"):
+            return len(a0) if isinstance(a0, (str, list, tuple)) and a0 != "SELF" else _t(a0)
+        if n in ("list", "tuple", "set", "frozenset", "sorted", "iter", "deque", "dict.fromkeys"):
             if not args:
                 return []
-            v = self.iterate(a0) if a0 is not UNK else UNK
-            if v is UNK:
-                return UNK
+            if _isu(a0):
+                return a0
+            v = self.iterate(a0)
             if n == "sorted" and not _unk(v):
                 try:
-                    return sorted(v)
+                    key = kwargs.get("key")
+                    if key is None:
+                        v = sorted(v)
+                    elif isinstance(key, _Lib) and key.name == "len":
+                        v = sorted(v, key=len)
+                    if kwargs.get("reverse") is True:
+                        v = list(reversed(v))
+                    return v
                 except TypeError:
                     return list(v)
             return tuple(v) if n == "tuple" else list(v)
         if n == "reversed":
-            return list(reversed(self.iterate(a0))) if a0 is not UNK else UNK
+            return list(reversed(self.iterate(a0))) if not _isu(a0) else a0
         if n == "enumerate":
-            if a0 is UNK:
-                return UNK
+            if _isu(a0):
+                return a0
             start = args[1] if len(args) > 1 and isinstance(args[1], int) else kwargs.get("start", 0)
             return [(i, v) for i, v in enumerate(self.iterate(a0), start if isinstance(start, int) else 0)]
         if n == "range":
             if _unk(*args):
-                return UNK
+                return _t(*args)
             try:
                 return list(range(*args))[:16]
             except Exception:  # noqa: BLE001
-                return UNK
-        if n == "zip":
+                return _d(*args)
+        if n in ("zip", "zip_longest"):
             if _unk(*[a for a in args if not isinstance(a, (list, tuple, str))]):
-                return UNK
+                return _t(*args)
+            if n == "zip_longest":
+                return [tuple(t) for t in itertools.zip_longest(*[self.iterate(a) for a in args], fillvalue=kwargs.get("fillvalue"))]
             return [tuple(t) for t in zip(*[self.iterate(a) for a in args])]
+        if n == "pairwise":
+            if _isu(a0):
+                return a0
+            vals = self.iterate(a0)
+            return list(zip(vals, vals[1:]))
         if n in ("str", "repr"):
-            return a0 if isinstance(a0, str) else (str(a0) if isinstance(a0, int) else UNK)
+            return a0 if isinstance(a0, str) else (str(a0) if isinstance(a0, int) else _d(a0))
         if n in ("bool",):
-            return UNK if a0 is UNK else bool(a0)
+            return a0 if _isu(a0) else bool(a0)
         if n in ("int", "min", "max", "sum", "abs"):
+            if _unk(*args) or kwargs:
+                return _t(*allargs) if _unk(*args) else _d(*allargs)
             try:
-                return {"int": int, "min": min, "max": max, "sum": sum, "abs": abs}[n](*args) if not _unk(*args) else UNK
+                return {"int": int, "min": min, "max": max, "sum": sum, "abs": abs}[n](*args)
+            except ValueError:
+                raise _Abort() from None
             except Exception:  # noqa: BLE001
-                return UNK
+                return _d(*args)
         if n in ("any", "all"):
-            vals = self.iterate(a0) if a0 is not UNK else [UNK]
+            vals = self.iterate(a0)
             ts = [self.truth(v) for v in vals]
             return any(ts) if n == "any" else all(ts)
         if n == "next":
-            vals = self.iterate(a0) if a0 is not UNK else [UNK]
+            vals = self.iterate(a0)
             if vals:
                 return vals[0]
             if len(args) > 1:
@@ -694,36 +1065,134 @@ class Walk:
         if n == "isinstance":
             return UNK
         if n == "accumulate" and args:
+            if _isu(a0):
+                return a0
             vals = self.iterate(a0)
             fn = args[1] if len(args) > 1 else kwargs.get("func")
             out: list = []
+            first = True
             acc = None
-            for i, v in enumerate(vals):
-                acc = v if i == 0 else (self.apply(fn, [acc, v], ctx, depth) if fn is not None else self.binop(ast.Add(), acc, v))
+            if kwargs.get("initial") is not None:
+                acc, first = kwargs["initial"], False
+                out.append(acc)
+            for v in vals:
+                acc = v if first else (self.apply(fn, [acc, v], ctx, depth) if fn is not None else self.binop(ast.Add(), acc, v))
+                first = False
                 out.append(acc)
             return out
-        if n == "map" and len(args) == 2:
-            return [self.apply(a0, [v], ctx, depth) for v in self.iterate(args[1])]
+        if n == "reduce" and len(args) >= 2:
+            if _isu(args[1]):
+                return args[1]
+            vals = self.iterate(args[1])
+            if len(args) > 2:
+                vals = [args[2], *vals]
+            if not vals:
+                raise _Abort()
+            acc = vals[0]
+            for v in vals[1:]:
+                acc = self.apply(a0, [acc, v], ctx, depth)
+            return acc
+        if n == "map" and len(args) >= 2:
+            if len(args) == 2:
+                return [self.apply(a0, [v], ctx, depth) for v in self.iterate(args[1])]
+            return [self.apply(a0, list(t), ctx, depth) for t in zip(*[self.iterate(a) for a in args[1:]])]
+        if n == "starmap" and len(args) == 2:
+            return [self.apply(a0, self.iterate(t), ctx, depth) for t in self.iterate(args[1])]
         if n == "filter" and len(args) == 2:
             return [v for v in self.iterate(args[1]) if self.truth(self.apply(a0, [v], ctx, depth) if a0 is not None else v)]
+        if n in ("takewhile", "dropwhile") and len(args) == 2:
+            vals = self.iterate(args[1])
+            k = 0
+            while k < len(vals) and self.truth(self.apply(a0, [vals[k]], ctx, depth)):
+                k += 1
+            return vals[:k] if n == "takewhile" else vals[k:]
+        if n == "islice" and len(args) >= 2:
+            if _isu(a0) or _unk(*args[1:]):
+                return OPQ if _concrete(a0) else _t(*args)
+            try:
+                return list(itertools.islice(self.iterate(a0), *args[1:]))
+            except Exception:  # noqa: BLE001
+                return _d(*args)
         if n in ("chain",):
             out = []
             for a in args:
                 out += self.iterate(a)
             return out
-        if n in ("bisect", "bisect_left", "bisect_right", "insort"):
-            return UNK
+        if n == "chain.from_iterable" and args:
+            out = []
+            for a in self.iterate(a0):
+                out += self.iterate(a)
+            return out
+        if n in ("bisect", "bisect_left", "bisect_right") and len(args) >= 2 and isinstance(a0, (list, tuple)) and a0 and all(isinstance(x, str) for x in a0) and (isinstance(args[1], str) or (isinstance(args[1], (list, tuple)) and all(isinstance(x, str) for x in args[1]))) and not _unk(*args[2:]):
+            # a witness run: the listed names are concrete
+            import bisect as _bisect
+
+            key = kwargs.get("key")
+            kw = {}
+            if key is not None:
+                fn = self.pyfunc(key, ctx, depth)
+                if fn is None:
+                    return OPQ
+                kw["key"] = fn
+            for nm_, v_ in kwargs.items():
+                if nm_ in ("lo", "hi") and isinstance(v_, int):
+                    kw[nm_] = v_
+            probe = tuple(args[1]) if isinstance(args[1], list) else args[1]
+            if isinstance(probe, tuple) != (key is not None and isinstance(kw["key"](a0[0]), tuple)):
+                return OPQ  # the probe and the keyed elements are not comparable
+            try:
+                return getattr(_bisect, n)(list(a0), probe, *[a for a in args[2:] if isinstance(a, int)], **kw)
+            except Exception:  # noqa: BLE001
+                return OPQ
+        if n in ("bisect", "bisect_left", "bisect_right", "insort", "insort_left", "insort_right"):
+            return UNK  # a position in the listed names (the search order is decided by rules/c05_bisect.py)
+        if n in ("dict", "defaultdict", "OrderedDict", "Counter", "getattr", "hasattr", "id", "type", "print", "hash", "callable", "cast"):
+            return _t(*allargs) if n != "cast" or len(args) < 2 else args[1]
         if n == "partial" and args:
-            return UNK
-        # an unknown function of the mapping data
-        for a in args:
-            if a is UNK:
-                return UNK
-        return UNK
+            return _Partial(a0, args[1:], kwargs)
+        if n == "operator.add" or n == "operator.concat":
+            if len(args) == 2:
+                a, b = args
+                if isinstance(a, str) and isinstance(b, str) and "SELF" not in (a, b):
+                    return a + b
+                if (isinstance(a, str) and _ismap(b)) or (_ismap(a) and isinstance(b, str)) or ("UNKSTR",) in (a, b):
+                    return ("UNKSTR",)
+                return self.binop(ast.Add(), a, b)
+        if n == "operator.mod" and len(args) == 2:
+            return self.binop(ast.Mod(), args[0], args[1])
+        if n == "operator.getitem" and len(args) == 2 and isinstance(a0, (str, list, tuple)) and isinstance(args[1], int) and a0 != "SELF":
+            try:
+                return a0[args[1]]
+            except Exception:  # noqa: BLE001
+                raise _Abort() from None
+        if n in ("operator.contains", "operator.eq", "operator.ne") and len(args) == 2:
+            if n == "operator.contains":
+                return self.compare(ast.In(), _plain(args[1]), _plain(a0))
+            return self.compare(ast.Eq() if n == "operator.eq" else ast.NotEq(), _plain(a0), _plain(args[1]))
+        if n in _FOLDABLE and allargs and not _unk(*allargs) and all(isinstance(a, (str, int)) and a != "SELF" for a in allargs):
+            try:
+                r = _FOLDABLE[n](*args, **kwargs)
+            except Exception:  # noqa: BLE001
+                return _d(*allargs)
+            if isinstance(r, (str, int, bool)):
+                return r
+            if isinstance(r, (list, tuple)) and all(isinstance(x, (str, int)) or (isinstance(x, tuple) and all(isinstance(y, str) for y in x)) for x in r):
+                return list(r) if isinstance(r, list) else tuple(r)
+            return _d(*allargs)
+        # a function the unrolling does not model
+        self.mixed(None, *allargs)
+        return _d(*allargs)
 
 
 def _plain(v):
     return UNK if v == ("UNKSTR",) else v
+
+
+def _src_of(node) -> str:
+    try:
+        return "`" + norm(node, 70) + "`"
+    except Exception:  # noqa: BLE001
+        return "a derived name"
 
 
 def _load(t: ast.expr) -> ast.expr:
@@ -736,7 +1205,7 @@ def _load(t: ast.expr) -> ast.expr:
     return t
 
 
-NAMES = ("aa", "aa.bb", "aa.bb.cc")
+NAMES = ("aa", "aa.bb", "aa.bb.cc", "aa.bb.cc.dd")
 
 
 def ancestors_or_self(name: str) -> set[str]:
@@ -748,6 +1217,7 @@ def check_walk(repo: Repo, view: FuncInfo) -> tuple[str, str]:
     """('ok' | 'violated' | 'undecided' | 'scan', explanation)."""
     missing_all: dict[str, list[str]] = {}
     family = None
+    blind: list[str] = []
     for name in NAMES:
         w = Walk(repo, view, name)
         try:
@@ -769,11 +1239,59 @@ def check_walk(repo: Repo, view: FuncInfo) -> tuple[str, str]:
         missing = sorted(ancestors_or_self(name) - w.looked, key=len)
         if missing:
             missing_all[name] = missing
+            if w.opaque:
+                blind.append(f"names the unrolling cannot compute are looked up ({', '.join(sorted(set(w.opaque))[:3])})")
+            if w.truncated:
+                blind.append("the unrolling ran out of budget")
     if family is None:
         return "undecided", "no comparison of the module name (or names derived from it) with the listed modules was found in the lookup"
     if family == "scan":
         return "scan", "every listed module name is compared with the module name: all ancestors are covered, whatever their depth"
+    if missing_all and blind:
+        return "undecided", f"the lookup tests names derived from the module name, but {'; '.join(sorted(set(blind)))}: whether every ancestor is tested is not known"
     if missing_all:
         ex = "; ".join(f"for `{n}` the name(s) {', '.join(repr(m) for m in ms)} are never looked up" for n, ms in missing_all.items())
         return "violated", f"the walk over the ancestors of the module name does not test every ancestor-or-self: {ex}. Descendants of a module listed under such a name (e.g. a top-level package) resolve to no layer"
-    return "ok", "unrolled on names with 1, 2 and 3 components: every ancestor of the name and the name itself is looked up"
+    return "ok", "unrolled on names with 1 to 4 components: every ancestor of the name and the name itself is looked up"
+
+
+# --------------------------------------------------------------------------- witness runs: order-based skipping over raw-sorted names
+
+WITNESS_LISTED = ["aa", "aa-b", "aa.bb", "aa.bb-c", "aa.bb.cc", "aa.bb.cc-d", "ab", "b.c"]
+WITNESS_QUERIES = ["aa.x", "aa.bb.x", "aa.bb.cc.x", "aa.bb.cc.dd.x", "aa-b.x", "b.c.x"]
+
+
+def order_witness(repo: Repo, view: FuncInfo, field_text: str, key=None) -> tuple[str, str]:
+    """('ok' | 'violated' | 'skipped', explanation).  The lookup is unrolled with the sorted list of listed names bound to a
+    concrete, adversarial content: siblings whose names continue a listed name with a character that sorts below '.'
+    (`aa` < `aa-b` < `aa.bb`), so that raw string order differs from hierarchy order.  Every listed ancestor of the queried name
+    must still be recognised (prefix-tested positively / looked up).  A miss is a concrete counterexample: the lookup skips
+    entries on the assumption that whatever sorts between two related names is related to them."""
+    try:
+        listed = sorted(WITNESS_LISTED, key=key)
+    except Exception:  # noqa: BLE001
+        return "skipped", "the sort key could not be applied to the witness names"
+    tested = 0
+    for q in WITNESS_QUERIES:
+        w = Walk(repo, view, q, fields={field_text: listed})
+        try:
+            w.explore()
+        except (Unsupported, RecursionError):
+            return "skipped", "the lookup uses a construct the abstract unrolling does not interpret"
+        if w.opaque or w.truncated:
+            return "skipped", "the unrolling met values it cannot compute"
+        expected = {n for n in listed if q.startswith(n + ".")}
+        found = w.matched | (w.looked & expected)
+        if w.scan:
+            return "skipped", "listed names other than the sorted list are scanned as well"
+        if not found and not w.looked:
+            return "skipped", "the unrolling saw no comparison with the listed names"
+        tested += 1
+        missing = sorted(expected - found)
+        if missing:
+            return "violated", (
+                f"with the listed modules {listed} (in the order the list is sorted) the lookup of `{q}` never recognises the listed ancestor(s) {missing}: "
+                "entries are skipped on the assumption that names sorting between two related names are related as well, which raw string order does not guarantee "
+                "(`aa` < `aa-b` < `aa.bb`: a sibling whose name continues the parent's name with a character below '.' sorts between a module and its sub modules)"
+            )
+    return ("ok", f"unrolled on {tested} lookups over adversarially named siblings (`aa`, `aa-b`, `aa.bb`, ...): every listed ancestor is recognised") if tested else ("skipped", "no witness lookup could be unrolled")
